@@ -8,7 +8,7 @@ CONSTANTS
   KindsR1 = {"lookup", "current"}
   KindsR2 = {"lookup", "current"}
   MaxAppends = 1
-  NUpdaters = 2
+  NUpdaters = 1
   VaaNames = {}
 INVARIANTS
   TypeOK
